@@ -25,6 +25,7 @@ type Solver struct {
 	asserted  [][]*Term
 	ufIDs     map[string]int
 	TimeoutMs int
+	LogAll    bool
 	// stats
 	NSat, NUnsat, NUnknown int
 	SolverTime             time.Duration
@@ -92,7 +93,12 @@ func (s *Solver) Close() {
 	}
 }
 
+var SessionLog io.Writer
+
 func (s *Solver) send(line string) {
+	if SessionLog != nil && s.LogAll {
+		io.WriteString(SessionLog, line+"\n")
+	}
 	if s.Transcript != nil {
 		s.Transcript.WriteString(line)
 		s.Transcript.WriteByte('\n')
